@@ -78,3 +78,79 @@ def case_schur_cohn_lemma(h, p, cplx):
     else:
         roots = np.roots([1] + [complex(v) for v in a])
         h.claim_true("no-root-with-|z|>=1", bool(np.all(np.abs(roots) < 1)))
+
+
+def _flat(r):
+    """flatten nested results (tuples / arrays / scalars) into a list of scalars; None entries skipped"""
+    out = []
+    if r is None:
+        return out
+    if isinstance(r, (tuple, list)):
+        for e in r:
+            out.extend(_flat(e))
+        return out
+    if isinstance(r, np.ndarray):
+        for e in np.asarray(r, dtype=object).ravel() if r.dtype == object else r.ravel():
+            out.append(e)
+        return out
+    out.append(r)
+    return out
+
+
+def case_buffer_reuse(h, call, N, cplx, tag="f"):
+    """the result of a functional estimator depends only on the VALUES passed: (1) the caller's array is not modified,
+    (2) refilling the same buffer in place and calling again gives what a fresh array with those values gives"""
+    x = h.vec('x', N, cplx)
+    y = h.vec('y', N, cplx)
+    orig = [x[i] for i in range(N)]
+    try:
+        call(x)
+    except ValueError:
+        return
+    for i in range(N):
+        h.claim_eq("%s: input sample %d not modified by the call" % (tag, i), x[i], orig[i])
+    for i in range(N):
+        x[i] = y[i]
+    try:
+        r2 = call(x)
+        if h.is_sym():
+            from symx.array import SymArray
+            z = SymArray.make([y[i] for i in range(N)], cplx=cplx)
+        else:
+            z = np.array([y[i] for i in range(N)], dtype=complex if cplx else float)
+        r3 = call(z)
+    except ValueError:
+        return
+    a, b = _flat(r2), _flat(r3)
+    if len(a) != len(b):
+        h.fail("%s: refilled buffer vs fresh array: result sizes differ" % tag)
+        return
+    for i in range(len(a)):
+        h.claim_eq("%s: refilled buffer = fresh array [%d]" % (tag, i), a[i], b[i])
+
+
+class Call(object):
+    """callable by name: spectrum.<fn>(x, *args, **kw) (optionally a dotted path below the package)"""
+
+    def __init__(self, fn, *args, **kw):
+        self.fn, self.args, self.kw = fn, args, kw
+
+    def __call__(self, x):
+        obj = sp()
+        for part in self.fn.split('.'):
+            obj = getattr(obj, part)
+        return obj(x, *self.args, **self.kw)
+
+    def __repr__(self):
+        return "%s%r%r" % (self.fn, self.args, self.kw)
+
+
+def reuse_cases(specs, q):
+    """specs: (label, Call, N, cplx)"""
+    from symx.run import Case
+    out = []
+    for label, call, N, cplx in specs:
+        out.append(Case("buffer-reuse:%s:%s:N=%d" % (label, 'cx' if cplx else 're', N), case_buffer_reuse,
+                        dict(call=call, N=N, cplx=cplx, tag=label), timeout=120 if q else 600, max_paths=16, feas_timeout=3,
+                        wall=500 if q else 2400))
+    return out
